@@ -60,8 +60,10 @@ def _result_float_array(tag: str @ comptime, value: array[float, n]) -> None: ..
 
 
 @guppy.overload(
-    _result_int,
+    # `nat` must come first: a nat argument also matches `_result_int` through the
+    # implicit nat -> int coercion and values >= 2^63 would be reported as negative
     _result_nat,
+    _result_int,
     _result_bool,
     _result_float,
     _result_int_array,
